@@ -1,6 +1,6 @@
 /- C16 helper lemmas, part 4: case analyses of the table operations. -/
 import Discv5Model.Proofs.IpFilterTable
-namespace Discv5.KB
+namespace Discv5.KB.Ip
 
 theorem bump_passes (c : Cfg Val) (t0 : Table Val) (key : Nat) (v : Val) :
     Table.passesTableFilter c t0.bump key v = Table.passesTableFilter c t0 key v := rfl
@@ -137,4 +137,4 @@ theorem entryTouch_cases (c : Cfg Val) (now : Nat) (t0 : Table Val) (key : Nat) 
   split
   · exact Or.inr ⟨_, rfl⟩
   · exact Or.inl rfl
-end Discv5.KB
+end Discv5.KB.Ip
